@@ -41,6 +41,12 @@ for nr, tiers in ((1, ('quick', 'thorough')), (2, ('thorough',))):
        unwind=4, cbmc_flags=('--no-unwinding-assertions',), min_covers=3 if nr == 2 else 2, checks=('--bounds-check', '--signed-overflow-check', '--div-by-zero-check'), timeout=900,
        functions=('wait_for_readers', 'urcu_bp_reader_state', 'cds_list_move'),
        desc='bp wait_for_readers with arbitrary reader words at every load: never retires a reader on an OLD observation; nothing lost/duplicated; never waits holding the registry lock'))
+for e, fns, d in (('h_membarrier_init', ('rcu_init', 'rcu_sys_membarrier_init', 'rcu_sys_membarrier_status'), 'memb start-up for every answer of the membarrier QUERY and of the registration: the flag that lets readers drop their full barriers is set iff the kernel offers PRIVATE_EXPEDITED (registered first; failure fatal) or SHARED, never when the system call is unavailable; idempotent'),
+                  ('h_mb_master', ('smp_mb_master',), 'memb smp_mb_master: flag set => exactly one membarrier(PRIVATE_EXPEDITED | SHARED as granted), failure fatal; flag clear => a full fence')):
+    OBLIGATIONS.append(Ob(name='C01.O6.memb.' + e[2:], harness='C01/membarrier.c', entry=e, defines=('_LGPL_SOURCE',), unwind=2, min_covers=3, checks=CK2, functions=fns, timeout=120, desc=d))
+for e, fns, cov in (('h_membarrier_init', ('urcu_bp_sys_membarrier_init', 'urcu_bp_sys_membarrier_status'), 3), ('h_mb_master', ('smp_mb_master',), 2)):
+    OBLIGATIONS.append(Ob(name='C01.O6.bp.' + e[2:], harness='C01/membarrier_bp.c', entry=e, defines=('_LGPL_SOURCE',), unwind=2, min_covers=cov, checks=CK2, functions=fns, timeout=120,
+                          desc='bp flavor: ' + ('start-up: readers may drop their full barriers iff PRIVATE_EXPEDITED is offered and was registered first' if 'init' in e else 'smp_mb_master: one membarrier(PRIVATE_EXPEDITED) when readers rely on it (failure fatal), else a full fence')))
 OBLIGATIONS.append(Ob(name='C01.O5.bp.sync_skeleton', harness='C01/sync_bp_qsbr.c', entry='h_sync', defines=('FLAVOR_BP', '_LGPL_SOURCE'), mode='legacy',
    replace=('smp_mb_master', 'wait_for_readers'), unwind=1, min_covers=2, checks=CK2, functions=('urcu_bp_synchronize_rcu',),
    desc='bp: synchronize_rcu skeleton: all signals blocked first and restored last; lock gp, lock registry, mb_master, scan, exactly one PHASE toggle, scan, splice, mb_master, unlocks in reverse order; registry set unchanged'))
